@@ -352,7 +352,7 @@ def compare(sres, solo):
     return v, nonfinite
 
 
-def run_plan(source, timeout=120.0):
+def run_plan(source, timeout=300.0):
     """Execute one run (pass S + solo) from a decision source; returns result dict
     with 'violations' covering all oracles."""
     boot()
